@@ -114,6 +114,8 @@ class _Scan:
         self.keys, self.sections, self.bound = keys, sections, bound
         self.report = report
         self.n = 0
+        self.summaries = None
+        self.resolver = None
 
     def func_aliases(self, fi):
         roots = IP.roots_for(fi)
@@ -256,6 +258,38 @@ class _Scan:
                     continue      # mutator on the fresh copy itself
                 self.report(fi, c, c.func.value, cont,
                             'calls .%s() on' % c.func.attr)
+        # an input container handed to a package function that modifies the
+        # corresponding parameter in place (effect signatures of
+        # rules/_generic.py, fixpoint over the resolved call graph): covers
+        # callees in modules this scan does not enter (dassh.plot)
+        if self.summaries is None:
+            return
+        for c in walk_no_nested(fi.node):
+            if not isinstance(c, ast.Call):
+                continue
+            try:
+                cs, how = self.resolver.callees(fi, c)
+            except Exception:
+                continue
+            if len(cs) != 1 or how == 'by-name':
+                continue
+            mut = self.summaries.get(cs[0].full, ())
+            if not mut:
+                continue
+            for pn, arg in bind_args(c, cs[0]).items():
+                if pn not in mut:
+                    continue
+                self.n += 1
+                cont, extra = input_paths(arg)
+                if not cont or extra:
+                    continue
+                if not any(_is_container(q, self.keys, self.sections) and
+                           IP.match_schema(q, self.keys, self.sections)[0]
+                           in ('key', 'section') for q in cont):
+                    continue
+                self.report(fi, c, arg, cont,
+                            'passes to %s(), which modifies its parameter '
+                            '`%s` in place,' % (cs[0].qual, pn))
 
 
 def r1(ctx, repo, res, keys, sections, bound):
@@ -264,6 +298,10 @@ def r1(ctx, repo, res, keys, sections, bound):
     def report(fi, node, target, paths, how):
         hits.append((fi, node, target, paths, how))
     sc = _Scan(ctx, repo, keys, sections, bound, report)
+    if repo is ctx.repo:
+        from . import _generic
+        sc.summaries, _ = _generic.effect_signatures(repo)
+        sc.resolver = res
     class_fields = {}
     for ci in repo.all_classes():
         if ci.mod.name.startswith(EXCLUDED_MODS):
